@@ -599,9 +599,11 @@ func (c *Canary) handleTCP(eh *ethernet.Frame, iph *ipv4.Header, data []byte) er
 		// our FIN is now acknowledged then enter FIN-WAIT-2 and continue
 		// processing in that state.
 		state.State = SocketFinWait2
-	} else if state.State == SocketFinWait2 {
-		state.State = SocketTimeWait
 	}
+
+	// FIN-WAIT-2 is left only when the peer's FIN arrives (below): a plain
+	// acknowledgment must not move it to TIME-WAIT, or the peer's remaining
+	// data and its FIN are never acknowledged
 
 	if state.State == SocketEstablished ||
 		state.State == SocketFinWait1 ||
